@@ -16,6 +16,7 @@ What the model takes from the code, and where it is pinned here:
   * frame: no other function of the file writes to the store or assigns the tip
 -/
 import Verif.Extracted.ChainSkel
+import Verif.Extracted.DBSkel
 
 namespace Verif.C01Src
 open Verif.Skel Verif.Extracted
@@ -181,5 +182,36 @@ theorem src_addv2_stores_unconditionally :
     hasInfix [(· == .loop ["range", "blocks"] []), (· == .ifc ["blocks"] ["=="]), isRet ["E"], (· == .done),
       isCall "m.store.AddBlock", isCall "m.store.AddState", (· == .done),
       isCall ".SufficientlyHeavierThan", isHeavierGuard] skel_AddValidatedV2Blocks = true := by decide
+
+
+/-! ### the ancestor timestamp (pre-Oak retarget): what the manager asks for and how the store finds it -/
+
+def ancestorArgs : List Tok → List (List String)
+  | [] => []
+  | .call "m.store.AncestorTimestamp" a :: ts => a :: ancestorArgs ts
+  | _ :: ts => ancestorArgs ts
+
+/-- every caller asks for the ancestor of the block's PARENT (`b.ParentID`), in both branches of
+`applyTip` (first application and re-application from the store), in `AddBlocks` and in
+`UpdatesSince` -/
+theorem src_ancestor_timestamp_of_parent :
+    ancestorArgs skel_applyTip = [[".ParentID"], [".ParentID"]] ∧
+    ancestorArgs skel_AddBlocks = [[".ParentID"]] ∧
+    ancestorArgs skel_UpdatesSince = [[".ParentID"]] := by decide
+
+/-- `DBStore.AncestorTimestamp`: zero time iff the block's height is ABOVE the Oak hardfork height
+(`>`); otherwise at most `AncestorDepth` and at most `height` steps, each either the jump through
+the best-chain index (then stop) or one parent link; the timestamp is read once, AFTER the loop,
+from the record the walk ended on -/
+theorem src_store_ancestor_timestamp_shape :
+    matchPrefix [isCall "db.State", (· == .ifc ["db.n.HardforkOak.Height"] [">"]), isRet ["v", "true"], (· == .done)]
+      skel_DBStore_AncestorTimestamp = true ∧
+    occurs (· == .loop [".AncestorDepth()"] ["<", "&&", "<", "++"]) skel_DBStore_AncestorTimestamp = true ∧
+    (skel_DBStore_AncestorTimestamp.filter isLoop).length = 1 ∧
+    hasInfix [isCall "getBestID", (· == .ifc ["getBestID()"] ["==", "-"])] skel_DBStore_AncestorTimestamp = true ∧
+    hasInfix [(· == .brk), (· == .done), isCall "db.getAncestorInfo", (· == .done), isCall "db.getAncestorInfo", isRet []]
+      skel_DBStore_AncestorTimestamp = true ∧
+    (callNames skel_DBStore_AncestorTimestamp).count "db.getAncestorInfo" = 2 ∧
+    skel_DBStore_AncestorTimestamp.getLast? = some (.ret []) := by decide
 
 end Verif.C01Src
